@@ -210,6 +210,25 @@ def permute(ob, d, dims, ttm):
     eps = z3.Real('eps')
     ex.assume(eps > 0)
     ex.assume(eps < 1)
+    first = {}
+
+    def on_svd(ex_, f_, args, kwargs):
+        # ghost precondition of the FIRST truncating SVD: the train was brought to right-orthogonal form as a whole -- every core
+        # outside the super-core, except the first one (which carries the norm), is right-orthogonal.  (Later swaps work on cores the
+        # earlier swaps have rewritten; only the bounded stand-in speaks about their accuracy.)
+        if first:
+            return NotImplemented
+        for fr in reversed(ex_.frames):
+            if fr.func is not None and fr.func.qualname.endswith('permute'):
+                first['seen'] = True
+                cs, i = fr.locals.get('cores'), fr.locals.get('i')
+                for k in range(1, d):
+                    if k in (i, i + 1):
+                        continue
+                    ob.prove('first_swap.core%d_outside_the_supercore_is_right_orthogonal' % k, bool(isinstance(cs[k], STensor) and cs[k].ghost.get('right_orth_core')), 'ghost')
+                break
+        return NotImplemented
+    ex.call_hooks['torchtt._decomposition.SVD'] = on_svd
     r = ex.call(ex.module('torchtt._extras').env['permute'], [x, list(dims), SymScalar(eps, 'float', 'float')])
     # every truncation threshold is RELATIVE to the norm of the matrix being truncated:  threshold^2 * d^3 == eps^2 * ||S||^2
     from ttvc import gauge as _g
